@@ -622,6 +622,8 @@ class AbstractWalkModelDiGraph(ABC):
         # A solution cached by the subclass during an earlier solve() does not describe this run: drop it, so that
         # get_solution() raises if this run is inconclusive and is recomputed if it is optimal
         self._solution = None
+        # ... and so do the edge variable values cached when the routes were last read
+        self.edge_vars_sol = {}
         self.solver.optimize()
         self.solve_statistics[f"solve_time_ilp"] = time.perf_counter() - start_time
         self.solve_statistics[f"solve_time"] = time.perf_counter() - self.solve_time_start
